@@ -34,6 +34,8 @@
     sl <hex> <n1,n2,...>         storage dumps, then loads(n) for each n -> <hex>|<hex>... <avail>
     ta <type> <value> <k>        archive reader on the k-byte prefix of the encoding -> <value>@<consumed>
     tb <type> <value> <ks>       like ts for the archive stack (bounded binary_buffer_reader)
+    capt <cap> <payload hex> <type> <value> <k>   dump(buffer) + value, input cut to k bytes, load(writable_buffer of cap
+                                 bytes) + value -> "<stored bytes>" <value> <consumed>
 
   extension 2: the archive-stack ops run `decodeB` (the reader after `fix: binary_buffer_reader never reads
   beyond _end`); the serializer-stack ops run the cursor model `decodeC` (size_t cursor, clamp exactly as the
@@ -289,6 +291,21 @@ def stepLine (_ : Unit) (line : String) : Unit × String :=
         let pl ← parseBytes? payload
         let rs ← parseBytes? rest
         pure (cappedOp kind c pl ty va rs)
+    | ["capt", cap, payload, t, v, ks] => do
+        let ty ← parseTyStr t
+        let va ← parseValStr ty v
+        let c ← cap.toNat?
+        let pl ← parseBytes? payload
+        let k ← ks.toNat?
+        if !wfb ty va || pl.length > 65535 then pure "illformed" else
+        let input := (dumpBuffer pl ++ encodeA ty va).take k
+        match loadWritableB input c with
+        | none => pure "fault"
+        | some (got, r) =>
+          match decodeB ty r with
+          | some (v', r2) => pure ("\"" ++ String.join (got.map byteHex) ++ "\" " ++ showVal ty v' ++ " " ++
+              toString (input.length - r2.length))
+          | none => pure "fault"
     | ["bw", t, v] => do
         let ty ← parseTyStr t
         let va ← parseValStr ty v
